@@ -20,6 +20,7 @@
 #include "EbPictureOperators.h"
 #include "EbRestoration.h"
 #include "common_dsp_rtcd.h"
+#include "EbVerifHooks.h"
 void save_tile_row_boundary_lines(uint8_t *src, int32_t src_stride, int32_t src_width,
                                   int32_t src_height, int32_t use_highbd, int32_t plane,
                                   Av1Common *cm, int32_t after_cdef,
@@ -322,6 +323,8 @@ void dec_av1_loop_restoration_filter_row(EbDecHandle *dec_handle, int32_t sb_row
                 while (*sb_lr_completed_in_prev_row < (sb_col_y + nsync))
                     ;
             }
+            SVT_VERIF_EV("decsb", dec_handle, "SbBeg", 3, sb_row, sb_col_y, sb_row != 0,
+                         (tile_w_y + RESTORATION_PROC_UNIT_SIZE - 1) / RESTORATION_PROC_UNIT_SIZE - 1, 0);
         }
         int      sx = 0, sy = 0;
         uint8_t *src        = NULL;
@@ -465,6 +468,7 @@ void dec_av1_loop_restoration_filter_row(EbDecHandle *dec_handle, int32_t sb_row
         }
 
         if (is_mt) {
+            SVT_VERIF_EV("decsb", dec_handle, "SbEnd", 3, sb_row, sb_col_y);
             *sb_lr_completed_in_row = sb_col_y;
         }
     }
